@@ -227,7 +227,7 @@ def draw_sdmx_params(rng):
 
 def _draw_sdmx_params(rng):
     return {
-        "kind": rng.choice(SDMX_KINDS),
+        "kind": rng.choice(SDMX_KINDS + ["sdmxfull"]),  # (full settings: several exponent ratios, own plan class)
         "sseed": rng.below(10**6),
         "mol": rng.choice(TINY_MOLS),
         # (generally contracted sets: several radial functions per shell)
